@@ -18,6 +18,22 @@ CLAIMED = {
              'are insertion-ordered in the code (refuted example in the file, known finding K2, not yet replayed)',
         technique='Coq proof (sorted-permutation uniqueness, sort/map commutation) + differential correspondence via vm_compute',
         ref='DESIGN.md section 5, C02'),
+    'C08': dict(
+        category='proof',
+        text='Theorems about the chain-construction model: a config contributes exactly its listed, non-abstract, '
+             'non-excluded classes under its namespace; by-name and by-class inputs are resolved among the tasks of the '
+             'declaring namespace (C10 resolution with the namespace-prefixed name), optional absent inputs bind the default, '
+             'required absent ones fail construction; required_tasks / dependent_tasks / is_task_dependent_on are exactly '
+             'the transitive closures (fuelled closure proved sound and complete against an inductive Path); any set of '
+             'tasks each having an input in the set (every cycle) makes construction fail for every fuel. Tied to '
+             'Chain._prepare by differential runs on random class sets, mount trees (repeated mounting, prefix-overlapping '
+             'names, patterns, cyclic and dangling declarations) with graph queries; oracle: component-wise reference resolver.',
+        note='import_by_string not modelled (harness resolves import strings); patterns restricted to literals and prefix.*; '
+             'networkx trusted and tied by correspondence; cycles surface as RecursionError in the code vs ECycle in the model '
+             '(both: construction fails)',
+        technique='Coq proof (fold invariants, reachability closure soundness/completeness, non-well-founded set argument) + '
+                  'differential correspondence via vm_compute',
+        ref='DESIGN.md section 5, C08'),
     'C09': dict(
         category='proof',
         text='Theorems about the config/context model: dict.update is later-wins; a config mounted as ns reads the '
